@@ -8,7 +8,9 @@ Tie: kernel-checked interval certificates on `transform_to_failure_probability()
 values are certified against the *defined* normal distribution function Phi by CoqInterval `integral`.
 Search: the property's own relations evaluated on the implementation in floats (every run)."""
 import copy
+import json
 import math
+import os
 
 import numpy as np
 import pandas as pd
@@ -18,7 +20,7 @@ import common
 import gen_specs
 
 MANIFEST = dict(
-    text='Theorems (props/C08.v, 30) about an element-wise Coq model over R of WoehlerCurve (_make_k, basquin_cycles, basquin_load, '
+    text='Theorems (props/C08.v, 31) about an element-wise Coq model over R of WoehlerCurve (_make_k, basquin_cycles, basquin_load, '
          'transform_to_failure_probability, miner_*) and the py2coq-generated scattering_range_to_std / std_to_scattering_range: '
          'cycles(load(N)) = N and load(cycles(L)) = L wherever the life is finite (both sides of the knee, after any probability shift), '
          'cycles non-increasing (strictly decreasing where finite), continuous at the knee (Coquelicot `continuous`), log-log slope k_1 at/above and '
@@ -248,16 +250,16 @@ def rel_quantile(inp):
     w = acc(c)
     SD9, ND9 = tr(c, 0.9)
     SD1, ND1 = tr(c, 0.1)
-    if not close(SD9 / SD1, c['TS']):
+    if not close(SD9 / SD1, c['TS'], 1e-12):
         fails(out, 'SD_90/SD_10 != TS', SD_90=SD9, SD_10=SD1, ratio=SD9 / SD1, TS=c['TS'])
     for f in inp['factors']:
         L = max(SD9, SD1) * f
         r = float(w.cycles(L, 0.9)) / float(w.cycles(L, 0.1))
-        if not close(r, c['TN']):
+        if not close(r, c['TN'], 1e-11):
             fails(out, 'N_90/N_10 != TN', load=L, ratio=r, TN=c['TN'])
         N = min(ND9, ND1) / f
         rl = float(w.load(N, 0.9)) / float(w.load(N, 0.1))
-        if not close(rl, c['TN'] ** (1.0 / c['k_1'])):
+        if not close(rl, c['TN'] ** (1.0 / c['k_1']), 1e-11):
             fails(out, 'load_90/load_10 != TN^(1/k_1)', cycles=N, ratio=rl, expected=c['TN'] ** (1.0 / c['k_1']))
     return out
 
@@ -294,13 +296,14 @@ def rel_std(inp):
     from scipy import stats
     T, s, out = inp['T'], inp['s'], []
     z9 = float(stats.norm.ppf(0.9))
-    if not close(std_to_scattering_range(scattering_range_to_std(T)), T, 1e-12):
+    if not close(std_to_scattering_range(scattering_range_to_std(T)), T, 1e-13):
         fails(out, 'std_to_scattering_range(scattering_range_to_std(T)) != T', T=T, back=float(std_to_scattering_range(scattering_range_to_std(T))))
-    if not close(scattering_range_to_std(std_to_scattering_range(s)), s, 1e-12):
+    if not close(scattering_range_to_std(std_to_scattering_range(s)), s, 1e-13):
         fails(out, 'scattering_range_to_std(std_to_scattering_range(s)) != s', s=s, back=float(scattering_range_to_std(std_to_scattering_range(s))))
-    if not close(std_to_scattering_range(s), 10 ** (2 * z9 * s), 1e-12):
+    # the literals are 2 z9 and 1/(2 z9) to 1e-15 (theorem scatter_constants_are_z9): a few ulps of slack only
+    if not close(std_to_scattering_range(s), 10 ** (2 * z9 * s), 4e-15):
         fails(out, 'std_to_scattering_range(s) != 10^(2 z_0.9 s)', s=s, got=float(std_to_scattering_range(s)), expected=10 ** (2 * z9 * s))
-    if not close(scattering_range_to_std(T), math.log10(T) / (2 * z9), 1e-12, 1e-300):
+    if not close(scattering_range_to_std(T), math.log10(T) / (2 * z9), 4e-15, 1e-300):
         fails(out, 'scattering_range_to_std(T) != log10(T)/(2 z_0.9)', T=T, got=float(scattering_range_to_std(T)))
     return out
 
@@ -581,6 +584,9 @@ def certificates(res, rng, n_curves, stats_mod):
             z0, z = float(stats_mod.norm.ppf(c['failure_probability'])), float(stats_mod.norm.ppf(p))
             t = w.transform_to_failure_probability(p).to_pandas()
             SDp, NDp = float(t.SD), float(t.ND)
+            if not (math.isfinite(SDp) and math.isfinite(NDp)):
+                res.oblige('certificate %s' % (('transform', c, p),), False, 'implementation returned SD=%r ND=%r' % (SDp, NDp))
+                continue
             g = 'let c := transform_z %s %s %s %s in %s /\\ %s' % (
                 curve_term(c), common.rlit(z0), common.rlit(z), common.rlit(p),
                 cert.near('SD c', SDp, 1e-10, 1e-300 if SDp else 1e-12), cert.near('ND c', NDp, 1e-10, 1e-300))
@@ -590,15 +596,23 @@ def certificates(res, rng, n_curves, stats_mod):
             if c['SD'] == 0.0:
                 continue
             ct = curve_term(c, SD=SDp, ND=NDp, p=p)
-            for L in [SDp, float(np.nextafter(SDp, 0)), float(np.nextafter(SDp, INF)), SDp * rng.uniform(1.0, 3.0), SDp * rng.uniform(0.3, 1.0)]:
+            e1, e2 = rng.choice([1e-12, 1e-9, 1e-6, 1e-3]), rng.choice([1e-12, 1e-9, 1e-6, 1e-3])
+            for L in [SDp, float(np.nextafter(SDp, 0)), float(np.nextafter(SDp, INF)), SDp * (1 + e1), SDp * (1 - e2),
+                      SDp * rng.uniform(1.0, 3.0), SDp * rng.uniform(0.3, 1.0)]:
                 N = float(w.cycles(L, p))
-                if math.isinf(N):
+                if math.isnan(N):
+                    res.oblige('certificate %s' % (('cycles', c, p, L, N),), False, 'implementation returned NaN')
+                elif math.isinf(N):
                     add('er_inf (basquin_cycles_of %s %s)' % (ct, common.rlit(L)), ('cycles', c, p, L, 'inf'))
                 else:
                     add('er_near (basquin_cycles_of %s %s) %s %s' % (ct, common.rlit(L), common.rlit(N), cert.tol_lit(1e-10 * abs(N))),
                         ('cycles', c, p, L, N))
-            for N in [NDp, float(np.nextafter(NDp, 0)), float(np.nextafter(NDp, INF)), NDp * 10 ** rng.uniform(0.0, 2.0), NDp * 10 ** rng.uniform(-3.0, 0.0)]:
+            for N in [NDp, float(np.nextafter(NDp, 0)), float(np.nextafter(NDp, INF)), NDp * (1 + e2), NDp * (1 - e1),
+                      NDp * 10 ** rng.uniform(0.0, 2.0), NDp * 10 ** rng.uniform(-3.0, 0.0)]:
                 L = float(w.load(N, p))
+                if not math.isfinite(L):
+                    res.oblige('certificate %s' % (('load', c, p, N, L),), False, 'implementation returned a non-finite load')
+                    continue
                 add(cert.near('basquin_load_of %s %s' % (ct, common.rlit(N)), L, 1e-10, 1e-300), ('load', c, p, N, L))
         if c['SD'] == 0.0:
             continue
@@ -704,6 +718,14 @@ def run(res):
         elif d[0].startswith('miner'):
             run_rel(res, 'miner', {'curve': d[1]}, stats)
     distinct = set()
+    # corpus: hand-picked edge cases and minimised earlier failures, always run
+    cdir = os.path.join(common.CORPUS, 'C08')
+    for fn in sorted(os.listdir(cdir)) if os.path.isdir(cdir) else []:
+        if fn.endswith('.json'):
+            cc = json.load(open(os.path.join(cdir, fn)))
+            run_rel(res, cc['relation'], cc['input'], stats)
+            distinct.add(repr(cc['input']))
+    res.cov['corpus_cases'] = len(distinct)
     for i in range(n_rel):
         c = gen_curve(res.rng)
         p = gen_p(res.rng)
